@@ -195,6 +195,7 @@ class AsfPong(AsfMsg):
     DATA_FORMAT = '!IIBB6x'
 
     def __init__(self):
+        AsfMsg.__init__(self)
         self.asf_type = self.ASF_TYPE_PRESENCE_PONG
         self.oem_iana_enterprise_number = 4542
         self.oem_defined = 0
@@ -202,12 +203,13 @@ class AsfPong(AsfMsg):
         self.supported_interactions = 0
 
     def pack(self):
-        pdu = struct.pack(self.DATA_FORMAT,
-                          self.oem_iana_enterprise_number,
-                          self.oem_defined,
-                          self.supported_entities,
-                          self.supported_interactions)
-        return pdu
+        self.data = struct.pack(self.DATA_FORMAT,
+                                self.oem_iana_enterprise_number,
+                                self.oem_defined,
+                                self.supported_entities,
+                                self.supported_interactions)
+        # ASF header (IANA, type 0x40, tag, reserved, length 0x10) + data
+        return AsfMsg.pack(self)
 
     def unpack(self, sdu):
         AsfMsg.unpack(self, sdu)
